@@ -157,13 +157,16 @@ package validators
 //@   local vals []*Validator
 //@   loop 0 invariant idx: -1 <= rangeindex && (rangeindex < len(vals) || (rangeindex == -1 && len(vals) == 0)) && vals == v.list && moreRewards != nil && fresh(moreRewards) && moreRewards.val == 0 && moreRewards != totalAccumRewards
 //@   loop 1 invariant idx: -1 <= rangeindex && (rangeindex < len(vals) || (rangeindex == -1 && len(vals) == 0)) && vals == v.list && moreRewards != nil && fresh(moreRewards) && moreRewards.val == 0 && moreRewards != totalStakes
+//@   loop 1 invariant sum: totalStakes != nil && totalStakes.val >= 0 && (forall i int :: 0 <= i && i <= rangeindex ==> totalStakes.val >= vals[i].totalStake.val)
 //@   loop 2 invariant idx: -1 <= rangeindex && (rangeindex < len(vals) || (rangeindex == -1 && len(vals) == 0)) && vals == v.list && v.list == old(v.list) && moreRewards != nil && fresh(moreRewards)
+//@   loop 2 invariant sumok: totalStakes != nil && totalAccumRewards != nil && totalStakes != totalAccumRewards && (totalAccumRewards.val <= 0 ==> (forall i int :: 0 <= i && i < len(vals) ==> totalStakes.val >= vals[i].totalStake.val))
 //@   loop 2 invariant todo: forall i int :: rangeindex < i && i < len(vals) ==> vals[i].accumReward == old(vals[i].accumReward) && vals[i].totalStake == old(vals[i].totalStake) && vals[i].bus == v.bus
 //@   loop 2 invariant todovalues: forall i int :: rangeindex < i && i < len(vals) ==> vals[i].accumReward != nil && allocated(vals[i].accumReward) && vals[i].accumReward.val >= 0
 //@   loop 2 invariant stakes: forall i int :: 0 <= i && i < len(vals) ==> vals[i].totalStake == old(vals[i].totalStake) && vals[i].bus == v.bus
 //@   loop 2 invariant ledger: ledgerDelta(ck, 0) - moreRewards.val <= old(ledgerDelta(ck, 0))
 //@   loop 2 invariant othercoins: forall k types.CoinID :: k != 0 ==> ledgerDelta(ck, k) == old(ledgerDelta(ck, k))
 //@   loop 3 invariant idx: -1 <= rangeindex && (rangeindex < len(stakes) || (rangeindex == -1 && len(stakes) == 0))
+//@   loop 3 invariant sumok: totalStakes != nil && totalAccumRewards != nil && totalStakes != totalAccumRewards && (totalAccumRewards.val <= 0 ==> (forall i int :: 0 <= i && i < len(vals) ==> totalStakes.val >= vals[i].totalStake.val))
 //@   loop 3 invariant nonneg: totalReward != nil && totalReward.val >= 0
 //@   loop 3 invariant accrued: validator.accumReward != nil && validator.accumReward.val >= 0
 //@   loop 3 invariant amounts: remainder != nil && DAOReward != nil && DevelopersReward != nil && validator.accumReward == old(validator.accumReward) && validator.totalStake == old(validator.totalStake) && validator.bus == v.bus
